@@ -479,6 +479,8 @@ def build(spec, readonly=False):
             b.bounds = np.stack([lb, ub], axis=1)
         elif bd.get("form") == "list":
             b.bounds = [(float(l_), float(u_)) for l_, u_ in zip(lb, ub)]
+        elif bd.get("form") == "tuple":
+            b.bounds = tuple((float(l_), float(u_)) for l_, u_ in zip(lb, ub))
         else:
             b.bounds = Bounds(lb, ub)
     # constraints
